@@ -172,10 +172,14 @@ func C13(e *simkern.Env) {
 						{"cursor-as-call", tk.cursor, tk.cursor},
 						{"session-as-cursor", tk.session, tk.call},
 						{"session-as-call", tk.cursor, tk.session},
+						// the same, with the leading version byte rewritten to the
+						// one the slot expects (the version byte is not sealed)
+						{"cursor-retagged-as-call", tk.cursor, retag(tk.cursor, tk.call)},
+						{"call-retagged-as-cursor", retag(tk.call, tk.cursor), tk.call},
 					}
 					v := variants[tp.Draw(len(variants))]
 					inst := cl.Twin // the call slot is only consulted without a cache hit
-					if v.name == "call-as-cursor" || v.name == "session-as-cursor" {
+					if v.name == "call-as-cursor" || v.name == "session-as-cursor" || v.name == "call-retagged-as-cursor" {
 						inst = cl.Inst[0]
 					}
 					ok, resp := cont(inst, tk, v.cursor, v.call, a)
